@@ -626,3 +626,146 @@ pub fn describe_store(d: &StoreDump) -> String {
         d.content_hashes.len()
     )
 }
+
+// ------------------------------------------------------------------------------------------------
+// "noise": legal operations on *other* parts of the same store, interleaved into a property's histories.
+// The frame condition they check is generic: whatever happens to another document, to the settings tables, to the
+// author table or to the transaction boundaries (flush, committing reads, requests that fail inside the store) must not
+// change what the property observes.
+
+#[derive(Serialize, Deserialize, Clone, Debug, PartialEq, Eq)]
+pub enum Noise {
+    ImportDoc,
+    RemoveDoc,
+    /// (author slot, key selector, content index) written into the noise document through the remote-insert path
+    Write(u8, u8, u8),
+    /// on the noise document (true) or on a document that never exists (false: the request fails inside the store)
+    SetPolicy(bool),
+    RegisterPeer(bool, u8),
+    Flush,
+    ListNamespaces,
+    ContentHashes,
+    ReadSettings,
+    OpenClose,
+    /// open the noise document and try to remove it (refused), then close it
+    RemoveWhileOpen,
+    ImportAuthor(u8),
+}
+
+#[derive(Default, Debug, Clone)]
+pub struct NoiseState {
+    pub exists: bool,
+    pub applied: u32,
+    pub failed_inside_store: u32,
+}
+
+pub fn noise_namespace() -> &'static NamespaceSecret {
+    static N: OnceLock<NamespaceSecret> = OnceLock::new();
+    N.get_or_init(|| NamespaceSecret::from_bytes(&[0x4E; 32]))
+}
+
+pub fn never_existing_namespace() -> NamespaceId {
+    NamespaceSecret::from_bytes(&[0x4D; 32]).id()
+}
+
+fn noise_entry(a: u8, k: u8, c: u8) -> SignedEntry {
+    let key: Vec<u8> = match k % 5 {
+        0 => vec![],
+        1 => b"a".to_vec(),
+        2 => vec![b'a', 0xFF],
+        3 => b"ab".to_vec(),
+        _ => vec![0xFF],
+    };
+    sign(noise_namespace(), &ESpec { a: a % 3, k: key, t: T0 + (k as u64 % 4), c: c % 4 })
+}
+
+/// Apply one noise operation to a bare store. Failures that the operation is *expected* to produce are swallowed;
+/// an unexpected result is reported (it is a frame violation of its own: e.g. a setting accepted for a missing document).
+pub fn apply_noise(rt: &tokio::runtime::Runtime, store: &mut Store, n: &Noise, st: &mut NoiseState) -> R<()> {
+    use iroh_docs::store::DownloadPolicy;
+    let nid = noise_namespace().id();
+    st.applied += 1;
+    match n {
+        Noise::ImportDoc => {
+            es(store.import_namespace(noise_namespace().clone().into()))?;
+            st.exists = true;
+        }
+        Noise::RemoveDoc => {
+            es(store.remove_replica(&nid))?;
+            st.exists = false;
+        }
+        Noise::Write(a, k, c) => {
+            if st.exists {
+                let e = noise_entry(*a, *k, *c);
+                rt.block_on(async {
+                    let mut r = es(store.open_replica(&nid))?;
+                    let _ = r.insert_remote_entry(e, [0x4E; 32], iroh_docs::ContentStatus::Missing).await;
+                    Ok::<(), String>(())
+                })?;
+                store.close_replica(nid);
+            }
+        }
+        Noise::SetPolicy(on_noise) => {
+            let target = if *on_noise { nid } else { never_existing_namespace() };
+            let r = store.set_download_policy(&target, DownloadPolicy::NothingExcept(vec![]));
+            let should = *on_noise && st.exists;
+            if r.is_ok() != should {
+                return Err(format!("noise: set_download_policy on a document that {} returned ok={}", if should { "exists" } else { "does not exist" }, r.is_ok()));
+            }
+            if !should {
+                st.failed_inside_store += 1;
+            }
+        }
+        Noise::RegisterPeer(on_noise, p) => {
+            let target = if *on_noise { nid } else { never_existing_namespace() };
+            let r = store.register_useful_peer(target, [*p; 32]);
+            let should = *on_noise && st.exists;
+            if r.is_ok() != should {
+                return Err(format!("noise: register_useful_peer on a document that {} returned ok={}", if should { "exists" } else { "does not exist" }, r.is_ok()));
+            }
+            if !should {
+                st.failed_inside_store += 1;
+            }
+        }
+        Noise::Flush => es(store.flush())?,
+        Noise::ListNamespaces => {
+            for x in es(store.list_namespaces())? {
+                es(x)?;
+            }
+        }
+        Noise::ContentHashes => {
+            for x in es(store.content_hashes())? {
+                es(x)?;
+            }
+        }
+        Noise::ReadSettings => {
+            let _ = es(store.get_sync_peers(&nid))?.map(|i| i.count());
+            let _ = store.get_download_policy(&nid);
+            let _ = es(store.get_sync_peers(&never_existing_namespace()))?.map(|i| i.count());
+        }
+        Noise::OpenClose => {
+            if st.exists {
+                let _ = es(store.open_replica(&nid))?;
+                store.close_replica(nid);
+            } else if store.open_replica(&nid).is_ok() {
+                return Err("noise: a removed document could be opened".into());
+            }
+        }
+        Noise::RemoveWhileOpen => {
+            if st.exists {
+                let _ = es(store.open_replica(&nid))?;
+                let r = store.remove_replica(&nid);
+                store.close_replica(nid);
+                if r.is_ok() {
+                    return Err("noise: remove_replica succeeded on an open document".into());
+                }
+                st.failed_inside_store += 1;
+            }
+        }
+        Noise::ImportAuthor(i) => {
+            let a = Author::from_bytes(&[0x40 + (*i % 4); 32]);
+            es(store.import_author(a))?;
+        }
+    }
+    Ok(())
+}
